@@ -15,6 +15,8 @@ special case) and every translation vector.  The hypotheses are explicit and dec
 cell balances, `closure c fs = 0` (the signed face normals of the cell sum to zero: the cell is closed).
 -/
 import PorepyVerif.C16.Lemmas
+import Mathlib.Tactic.NormNum
+import Mathlib.Tactic.Linarith
 
 namespace PorepyVerif.C16
 
@@ -247,6 +249,53 @@ example : (faceDisp fDir (fun _ => ⟨1, -2, 3⟩) ⟨1, 0, 3⟩).get .y = -2 :=
   tpsa_translation_face_disp fDir ⟨1, -2, 3⟩ ⟨1, 0, 3⟩ .y (by decide +kernel) (by decide +kernel)
     (by decide +kernel)
 
+/-! non-vacuity of the nonsingularity hypothesis: the one-cell all-Dirichlet grid, worked out symbolically -/
+
+def sqDir : Faces := sq1 (.dir, .dir) (.dir, .dir) (.dir, .dir) (.dir, .dir) tEx tEx tEx tEx
+def cellsEx : Nat → Cell := fun _ => ⟨1, 2, 1⟩
+
+theorem resid_sqDir (st : State) :
+    resid false sqDir cellsEx st 0 =
+      ⟨⟨96 - 32 * (st.u 0).x, -80 - 32 * (st.u 0).y, 0⟩, ⟨0, 0, -(1/2) * (st.r 0).z⟩, -(st.p 0)⟩ := by
+  simp only [resid, sqDir, sq1, cellSum, sgnOf, sideSum, stressFlux, stressU, stressG, stressR2, stressP, nvd,
+    rotFlux2, rotRot2, massFlux, massP, faceDisp, sideVec, c2fW, gammaB, trmNd, trmBnd, tShear, muSum, b2fRob,
+    sumInvM, sumTwoM, Side.m, Face.bc, BC.robInv, BC.robW, BC.isDir, BC.isNeu, BC.isRob, notNeu, neuRob, arith,
+    dirNotpass, argmaxDir, absR, tEx, cellsEx, Vec.get, robProj]
+  norm_num
+  constructor <;> ring
+
+/-- the nonsingularity hypothesis is satisfiable: the one-cell all-Dirichlet system has a unique solution -/
+theorem nonsingular_sqDir : Nonsingular false sqDir cellsEx 1 := by
+  intro a b ha hb c hc
+  have hc0 : c = 0 := by omega
+  subst hc0
+  have h1 := ha 0 (by omega)
+  have h2 := hb 0 (by omega)
+  rw [resid_sqDir] at h1 h2
+  simp only [Resid.zero, Vec.zero, Resid.mk.injEq, Vec.mk.injEq] at h1 h2
+  obtain ⟨⟨hax, hay, _⟩, ⟨_, _, har⟩, hap⟩ := h1
+  obtain ⟨⟨hbx, hby, _⟩, ⟨_, _, hbr⟩, hbp⟩ := h2
+  refine ⟨?_, ?_, ?_⟩
+  · intro d hd
+    simp [dirs] at hd
+    rcases hd with rfl | rfl
+    · show (a.u 0).x = (b.u 0).x
+      linarith
+    · show (a.u 0).y = (b.u 0).y
+      linarith
+  · show (if false = true then a.r 0 = b.r 0 else (a.r 0).z = (b.r 0).z)
+    simp only [Bool.false_eq_true, if_false]
+    linarith
+  · linarith
+
+example (st : State) (hst : Solves false sqDir cellsEx 1 st) :
+    (st.u 0).x = 3 ∧ (st.u 0).y = -5/2 ∧ (st.r 0).z = 0 ∧ st.p 0 = 0 := by
+  have h := tpsa_translation_unique false sqDir cellsEx 1 tEx (by decide +kernel)
+    (fun c hc => by have : c = 0 := by omega
+                    subst this; decide +kernel) nonsingular_sqDir st hst 0 (by omega)
+  obtain ⟨hu, hr, hp⟩ := h
+  refine ⟨hu .x (by simp [dirs]), hu .y (by simp [dirs]), ?_, hp⟩
+  simpa using hr
 end Examples
 
 end PorepyVerif.C16
